@@ -69,8 +69,79 @@ pub fn hash_str(s: &str) -> u64 {
     hash64(s.as_bytes())
 }
 
-/// Run `f`, turning a panic into `Err(message)`.
+// ---- logical watchdog on CPU time -------------------------------------------------------------------
+// Every call into repository code goes through `catch`. It bumps a sequence number and a depth counter; a
+// watchdog thread samples them together with the CPU time the main thread has consumed (not wall time: a
+// loaded machine does not advance it). One and the same call still in progress after CPU_BUDGET_TICKS of
+// CPU time is a call that does not hand control back (C09); the worker reports it and exits with code 98.
+pub static CALL_SEQ: std::sync::atomic::AtomicU64 = std::sync::atomic::AtomicU64::new(0);
+pub static CALL_DEPTH: std::sync::atomic::AtomicU32 = std::sync::atomic::AtomicU32::new(0);
+pub static CURRENT_INDEX: std::sync::atomic::AtomicU64 = std::sync::atomic::AtomicU64::new(0);
+/// 30 s of CPU time in clock ticks (USER_HZ = 100). The longest legitimate call measured is well under 1 s
+/// (the token-read budget of 5 M reads already cuts interpreter calls at about that point).
+pub const CPU_BUDGET_TICKS: u64 = 3000;
+pub const CPU_WATCHDOG_EXIT: i32 = 98;
+
+/// CPU time (utime + stime, clock ticks) consumed so far by the thread `tid` of this process.
+fn thread_cpu_ticks(tid: u32) -> Option<u64> {
+    let stat = std::fs::read_to_string(format!("/proc/self/task/{}/stat", tid)).ok()?;
+    let rest = &stat[stat.rfind(')')? + 1..];
+    let f: Vec<&str> = rest.split_whitespace().collect();
+    Some(f.get(11)?.parse::<u64>().ok()? + f.get(12)?.parse::<u64>().ok()?)
+}
+
+/// Start the watchdog for the calling (main) thread. `report` is the file the trip is described in.
+pub fn start_cpu_watchdog(report: Option<String>, replay_path: Option<String>) {
+    use std::sync::atomic::Ordering::Relaxed;
+    let tid = std::process::id(); // the main thread's tid equals the pid
+    std::thread::spawn(move || {
+        let mut last_seq = u64::MAX;
+        let mut ticks_at_first_seen = 0u64;
+        loop {
+            std::thread::sleep(std::time::Duration::from_millis(250));
+            let (seq, depth) = (CALL_SEQ.load(Relaxed), CALL_DEPTH.load(Relaxed));
+            let Some(ticks) = thread_cpu_ticks(tid) else { continue };
+            if depth == 0 || seq != last_seq {
+                last_seq = seq;
+                ticks_at_first_seen = ticks;
+                continue;
+            }
+            let used = ticks.saturating_sub(ticks_at_first_seen);
+            if used > CPU_BUDGET_TICKS {
+                let index = CURRENT_INDEX.load(Relaxed);
+                let text = format!("{{\"index\": {}, \"cpu_seconds\": {}}}", index, used / 100);
+                match &report {
+                    Some(path) => {
+                        let _ = std::fs::write(path, text);
+                    }
+                    None => {
+                        println!("one call into the repository's code has used {} s of CPU time without returning (case {})", used / 100, index);
+                        println!("VIOLATION property=C09 replay={}", replay_path.clone().unwrap_or_default());
+                    }
+                }
+                std::process::exit(CPU_WATCHDOG_EXIT);
+            }
+        }
+    });
+}
+
+/// Run harness code, turning a panic into `Err(message)` (not counted as a call into the repository).
+pub fn catch_harness<T>(f: impl FnOnce() -> T) -> Result<T, String> {
+    catch_impl(f)
+}
+
+/// Run `f` (a call into the repository's code), turning a panic into `Err(message)`.
 pub fn catch<T>(f: impl FnOnce() -> T) -> Result<T, String> {
+    use std::sync::atomic::Ordering::Relaxed;
+    CALL_SEQ.fetch_add(1, Relaxed);
+    CALL_DEPTH.fetch_add(1, Relaxed);
+    let r = catch_impl(f);
+    CALL_DEPTH.fetch_sub(1, Relaxed);
+    CALL_SEQ.fetch_add(1, Relaxed);
+    r
+}
+
+fn catch_impl<T>(f: impl FnOnce() -> T) -> Result<T, String> {
     match catch_unwind(AssertUnwindSafe(f)) {
         Ok(v) => Ok(v),
         Err(payload) => {
